@@ -378,7 +378,7 @@ def check_property(prop_id, tier, seed, props):
         for s in r["samples"][:3]:
             samples.append({"target": r["target"], "mode": r["mode"], "case": s[:1200]})
         rules.append("%s: %s" % (r["target"], r["nt_rule"]))
-        tdetail.append({k: r[k] for k in ("target", "mode", "evaluations", "requested", "discards",
+        tdetail.append({k: r.get(k, 0) for k in ("target", "mode", "evaluations", "requested", "discards", "work_units",
                                           "nontrivial", "distinct_nontrivial", "exhaustive", "labels",
                                           "known_hits", "slowest_case_us", "wall_s", "incomplete",
                                           "incomplete_why", "failure_events")})
